@@ -116,7 +116,7 @@ mutual
 def OutTree.WellFormed {o : Opt} (q : Quoter o) : OutTree → Prop
   | .atom _ => True
   | .arr ts => wfList q ts
-  | .obj ms => wfMembers q ms ∧ (o.noDup = true → ((renderMembers q ms).map fun m => nameKey m.1).Nodup)
+  | .obj ms => wfMembers q ms ∧ (o.noDup = true → ((renderMembers q ms).map fun m => o.key m.1).Nodup)
 def wfList {o : Opt} (q : Quoter o) : List OutTree → Prop
   | [] => True
   | t :: ts => t.WellFormed q ∧ wfList q ts
